@@ -235,7 +235,12 @@ impl NetCore {
             kernel::fault("straggler_delay");
         }
         if stable {
-            d = d.min(c.post_delay_ms);
+            d = if c.post_delay_ms > 100 {
+                // the whole range up to the bound, per message (reorders messages as well)
+                1 + kernel::choose("net.jitter", c.post_delay_ms)
+            } else {
+                d.min(c.post_delay_ms)
+            };
         }
         let mut bytes = bytes;
         if !stable && kernel::flip("net.corrupt", c.corrupt_ppm, 1_000_000) {
